@@ -67,4 +67,23 @@ CHECKS = {
         assumptions=["the hook observes the planes the encoder used as prediction reference (encoder writes its reconstruction into its Y/U/V planes)", "vendored x/image/vp8 + SkipLoopFilter switch as independent pre-deblocking decoder"],
         tests=[dict(name="TestC06", quick=3200, thorough=60000)],
     ),
+    "C05": dict(
+        level="exploration",
+        rule="inputs: 1-4 rapid-drawn mutations (bit flips, hostile byte values, chunk size-field rewrites incl. 0/1/odd/len+-k/0x7fffffff/0xffffffff, dimension rewrites, chunk delete/duplicate/move, FourCC swaps, truncation, random tails, inserts, 0x00/0xff runs, splices across seeds) of ~25 small valid files (package encoder: lossy 1/4/8 partitions, lossy+alpha raw/compressed/quantised, lossless, metadata; animation encoder lossless/lossy/mixed; muxer; /verif's VP8 generator; libwebp-written; repo testdata), random bytes behind a valid magic, and container programs with lying size fields. "
+             "Every input goes through Decode, DecodeConfig, GetFeatures, image.Decode/DecodeConfig, animation.DecodeBytes+DecodeFrames+DecodeFramesParallel+AnimDecoder playback, mux.NewDemuxer+Frame(i)+GetChunk+iterator. "
+             "Oracle: no panic, returns within 20 s (expiry confirmed by a 60 s re-run before it counts), well-formed results (positive bounds, buffers large enough), bytes allocated <= 64 MiB + 64 x (input length + 4 x declared pixels). "
+             "Non-trivial: input still carries the RIFF/WEBP magic; distinct = (source, seed, mutation kinds, which entry points accepted). Thorough adds a native coverage-guided fuzz campaign over the same entry points.",
+        assumptions=["inputs declaring more than 2^24 pixels are run through the header-only entry points (counted as skipped_huge_declared)",
+                     "allocation measured with runtime.MemStats.TotalAlloc in a single-goroutine test process"],
+        tests=[dict(name="TestC05", quick=40000, thorough=1500000, env=dict(VERIF_WANT_LASTCASE="1"))],
+        fuzz=[dict(name="FuzzC05", seconds=240)],
+    ),
+    "C17": dict(
+        level="fault_enumeration",
+        rule="files: rapid-drawn pictures encoded by the package (lossy with 1/2/4/8 partitions, lossless, lossy+alpha raw/compressed, with/without ICC/EXIF/XMP before and after the image, plus a trailing unknown chunk), by libwebp 1.2.4, and /verif-generated VP8 frames; for EVERY file EVERY proper prefix length 0..len-1 is enumerated (the fault = truncation point). "
+             "Oracle: Decode(prefix) is an error or an image identical in type, bounds and samples to the full decode; DecodeConfig/GetFeatures(prefix) is an error or equal in all fields to the complete file's. "
+             "Non-trivial: every file (all its cut points inside chunk payloads are visited); distinct = (source, chunk layout + partition count, decoded type). prefixes_checked counts the enumerated truncation points.",
+        assumptions=["files the package's Decode rejects in full are outside the property's domain and counted inconclusive"],
+        tests=[dict(name="TestC17", quick=640, thorough=12000)],
+    ),
 }
